@@ -354,6 +354,11 @@ func (g *pgen) extras(m *doc.Node, class string, reserved map[string]bool, max i
 			g.feat("extras:go-field-name@" + class)
 		}
 	}
+	if len(g.o.Refs) == 0 && !g.o.UniqueStrings && g.chance(20) && !reserved[""] && !m.Has("") {
+		// an unknown key that is the empty string, with a value that would fit a typed neighbour (a flag, a name, a list)
+		m.Map = append(m.Map, doc.P("", Pick(g.r, []*doc.Node{doc.B(true), doc.B(false), doc.S("x"), doc.I(1), doc.L(doc.S("a")), doc.Null()})))
+		g.feat("extras:empty-key@" + class)
+	}
 	g.shadowPairs(m, class)
 }
 
